@@ -9,3 +9,11 @@ prog = facts.load_program(inline_helpers=False)
 names = sorted(set(inline.strip_targs(f.name) for f in prog.functions.values()))
 json.dump(names, open(inline.KNOWN_FILE, "w"), indent=0)
 print("%d function names" % len(names))
+refs = {}
+for f in prog.functions.values():
+    r = inline.ref_locals(f.d)
+    if r:
+        refs.setdefault(inline.strip_targs(f.name), [])
+        refs[inline.strip_targs(f.name)] = sorted(set(refs[inline.strip_targs(f.name)]) | set(r))
+json.dump(refs, open(inline.KNOWN_REFS_FILE, "w"), indent=0, sort_keys=True)
+print("%d functions with reference locals" % len(refs))
